@@ -285,19 +285,30 @@ def subtract (E : Engine) : List (Cand × Rat) → Alloc → List Draw → Excep
 
 /-! ## sequential.py: initial_allocation -/
 
+/-- the ballot's first rank is the single candidate `c` (`first_prefs[first_pref][vote] = n_votes`, L381-382) -/
+def firstIs (c : Cand) (bw : Ballot × Rat) : Bool :=
+  match bw.1 with
+  | .one c' :: _ => decide (c' = c)
+  | _ => false
+
+/-- the ballot's first rank is shared (`isinstance(first_pref, collections.abc.Set)`, L374) -/
+def sharedFirst (bw : Ballot × Rat) : Bool :=
+  match bw.1 with
+  | .shared _ :: _ => true
+  | _ => false
+
+/-- `first_prefs` before the FICTIONAL pile is split (L366-382) -/
+def firstPrefs (votes : Profile) : Alloc :=
+  (allRanked votes).map (fun c => (some c, votes.filter (firstIs c)))
+
+/-- `first_prefs[FICTIONAL]` without the prepended marker (L378-380) -/
+def fictionalPile (votes : Profile) : Pile := votes.filter sharedFirst
+
 /-- `initial_allocation` (L354-399).  Ballots with a shared first rank form the pile of the FICTIONAL
     holder, which is then transferred (`frm = none`); renaming `(FICTIONAL,)+vote` back to `vote` moves
-    nothing in this representation. -/
+    nothing in this representation.  Empty ballots are skipped (L371-372). -/
 def initialAllocation (E : Engine) (votes : Profile) (ds : List Draw) : Except Err (Alloc × List Draw) :=
-  let cands := allRanked votes
-  let direct (c : Cand) : Pile := votes.filter (fun bw => match bw.1 with
-    | .one c' :: _ => c' = c
-    | _ => false)
-  let firstPrefs : Alloc := cands.map (fun c => (some c, direct c))
-  let fictional : Pile := votes.filter (fun bw => match bw.1 with
-    | .shared _ :: _ => true
-    | _ => false)
-  movePile E cands none fictional firstPrefs ds
+  movePile E (allRanked votes) none (fictionalPile votes) (firstPrefs votes) ds
 
 /-! ## sequential.py: next_count -/
 
@@ -315,18 +326,24 @@ def computeQuota (cfg : Cfg) (total : Rat) (nSeats : Nat) : Option Rat :=
   | some f => if total ≠ 0 ∧ nSeats ≠ 0 then some (f total nSeats) else none
   | none => none
 
+/-- `min(n_multiples, max_seats.get(cand, INF))` (L292) -/
+def capOf (maxS : Seats) (c : Cand) (m : Int) : Int :=
+  match maxGet maxS c with
+  | some k => min m (k : Int)
+  | none => m
+
+/-- body of the loop of `_elect_by_quota` (L288-297) for one candidate -/
+def quotaEntry (acceptEqual : Bool) (q : Rat) (prev maxS : Seats) (ct : Cand × Rat) : Option (Cand × Nat × Rat) :=
+  let m : Int := (ct.2 / q).floor
+  let over : Rat := ct.2 - (m : Rat) * q
+  if acceptEqual || decide (over ≠ 0) then
+    let actual : Int := capOf maxS ct.1 m - (seatsGet prev ct.1 : Int)
+    if actual > 0 then some (ct.1, actual.toNat, over) else none
+  else none
+
 /-- loop of `_elect_by_quota` (L287-297): (candidate, seats, overcount) in order of non-increasing totals -/
 def quotaMultiples (acceptEqual : Bool) (q : Rat) (prev maxS : Seats) (tp : Votes) : List (Cand × Nat × Rat) :=
-  (sortDesc tp).filterMap (fun ct =>
-    let m : Int := (ct.2 / q).floor
-    let over : Rat := ct.2 - (m : Rat) * q
-    if acceptEqual || decide (over ≠ 0) then
-      let cap : Int := match maxGet maxS ct.1 with
-        | some k => min m (k : Int)
-        | none => m
-      let actual : Int := cap - (seatsGet prev ct.1 : Int)
-      if actual > 0 then some (ct.1, actual.toNat, over) else none
-    else none)
+  (sortDesc tp).filterMap (quotaEntry acceptEqual q prev maxS)
 
 def hasTie (l : List Slot) : Bool := l.any (fun s => match s with
   | .tie _ => true
